@@ -1633,4 +1633,25 @@ def main(tier=None, replay=None):
     t2 = time.time()
     part_driver(ck, T)
     ck.part("timing", tableaux_s=round(t1 - t0, 1), steps_s=round(t2 - t1, 1), driver_s=round(time.time() - t2, 1))
+    ck.cov["rule"] = ("one evaluation = one case run against the working tree: (tableau, condition) for every rooted-tree / "
+                      "row-sum / embedded / dense-output condition evaluated on the runtime floats; (stage-loop copy, "
+                      "TLC instance) for the exact step replay; (driver, TLC behaviour) for scripted driver runs and "
+                      "(driver, random problem) for real traces.  Non-trivial: trees of order >= 3; every step instance; "
+                      "scripts with >= 2 attempts; real runs with >= 3 attempts")
+    ck.cov["exhaustive"] = True
+    ck.assumptions += [
+        "order conditions are PROVED (all residues zero for primes whose product exceeds the numerator bound) for the "
+        "source rationals of rk4 / rk45 (+ embedded pair, dense P); those rationals are bound bit for bit to the runtime "
+        "arrays; the verdict that is reported is the exact residual of the runtime floats against RESID_TOL = 1e-11",
+        "rk8.py (rational approximations) and dop853.py (decimal expansions) are not exactly rational tableaux "
+        "(tables_not_exact): their conditions up to order 8 are checked only as a [T]-tier float contract (<= 1e-11, "
+        "unchanged tree 5e-14); DOP853's E3/E5/D are not checked",
+        "exact step instances use C[0] = 0 (the kernels evaluate stage 0 at t) and lower-triangular A",
+        "driver model: the step kernel and the PI controller are the environment; a rejected step is retried with a "
+        "strictly smaller step (the real controller stalls forever if the error test fails at h = min_step: observation "
+        "outside C02)",
+        "B2 observes the driver SOURCE (.py_func); outputs are compared with the compiled driver on the same inputs "
+        "(bit-identical for DOP853; within 1e-12 for RK45, whose np.linalg.norm differs in the last bit between numpy and numba)",
+        "NOT decided: error <= K * tol and its proportionality to tol, measured O(h^p) rates, accuracy of DOP853's dense "
+        "output (D matrix) and error weights (E3, E5)"]
     return ck.finish()
